@@ -409,7 +409,6 @@ def main(argv):
     evpath = os.path.join(OUT, "evidence", "%s.json" % prop)
     with open(evpath, "w") as f:
         json.dump(ev, f, indent=1, sort_keys=True)
-    _validate_evidence(evpath)
 
     for sig, desc in known_lines.items():
         print("KNOWN-FINDING: property=%s %s [%s]" % (prop, desc, sig))
@@ -420,7 +419,14 @@ def main(argv):
         "%s %s seed=%d: %d cases, %d distinct non-trivial, %d known-finding exclusions, %d violations, %.1fs"
         % (prop, tier, seed, evaluations, ev["coverage"]["distinct_nontrivial"], sum(known_hits.values()), len(uniq_unknown), wall)
     )
-    return 1 if uniq_unknown else 0
+    if uniq_unknown:
+        return 1
+    try:
+        _validate_evidence(evpath)
+    except Exception as e:  # noqa - a run too thin to produce valid evidence is a harness problem, not a pass
+        print("HARNESS-ERROR property=%s evidence does not validate: %s" % (prop, str(e).splitlines()[0]))
+        return 2
+    return 0
 
 
 def _validate_evidence(path):
